@@ -35,7 +35,7 @@ ANCHORS = [
 RECVS = ["fresh", "lazyrows", "lazycols+2", "lazycols-1", "lazychain", "ufunc", "astype", "deepcopy", "pickle", "copy-of-lazy", "readonly", "saveload", "concat"]
 FLOOR_TAGS = ["recv:" + r_ for r_ in RECVS] + ["mask-as-list", "r:int", "r:slice+1", "r:slice+k", "r:slice-", "r:list", "r:array", "r:mask", "r:ell",
               "c:none", "c:int+", "c:int-", "c:slice+1", "c:slice+k", "c:slice-",
-              "must-refuse", "sel-has-empty-row", "e-first", "e-last", "e-mid", "e-consec", "allempty", "norows"]
+              "must-refuse", "sel-has-empty-row", "ellipsis-padded", "e-first", "e-last", "e-mid", "e-consec", "allempty", "norows"]
 FLOOR_MONITORS = ["c02:model-compare", "c02:refusal", "c02:arguments-unchanged"]
 N_RANDOM = {"quick": 12000, "thorough": 400000}
 
@@ -158,7 +158,10 @@ def run(case):
 
     ra, parent = build_receiver(recv, flat, lens)
     parent_before = peek(parent) if parent is not None else None
-    idx = model.make_index(rs, cs, has_cs)
+    ellpad = case.get("ellpad", 0) if (has_cs and rs is not Ellipsis) else 0
+    idx = model.make_index(rs, cs, has_cs, ellpad=ellpad)
+    if ellpad:
+        tags.append("ellipsis-padded")
     arg_before = [np.array(x, copy=True) if isinstance(x, np.ndarray) else None for x in (rs, cs)]
     out = attempt(lambda: ra[idx])
     if out.ok:
@@ -395,13 +398,14 @@ def random_case(rng, tier):
     recv = rng.choice(RECVS) if rng.random() < 0.5 else "fresh"
     if ck == "none":
         return mk_case(lens, rs, recv=recv)
+    pad = rng.choice([1, 2, 3]) if rng.random() < 0.08 else 0
     if ck == "int":
         c = rng.randint(-maxl - 1, maxl)
         if rng.random() < 0.03:
             c = rng.choice([2 ** 32 + c, -2 ** 32 + c])
-            return mk_case(lens, rs, rng.choice([c, np.int64(c)]), True, recv)
-        return mk_case(lens, rs, gen.np_int(rng, c), True, recv)
-    return mk_case(lens, rs, gen.gen_slice(rng, maxl), True, recv)
+            return dict(mk_case(lens, rs, rng.choice([c, np.int64(c)]), True, recv), ellpad=pad)
+        return dict(mk_case(lens, rs, gen.np_int(rng, c), True, recv), ellpad=pad)
+    return dict(mk_case(lens, rs, gen.gen_slice(rng, maxl), True, recv), ellpad=pad)
 
 
 def classify(case, res):
